@@ -113,9 +113,12 @@ class RepoWorld:
         return ops
 
     def committed_prefix(self):
-        size = self.w.storage.getSize()
+        # the end of the last finished transaction, found by parsing the
+        # file (not by asking the code under test)
         with open(self.path, 'rb') as f:
-            return f.read(size)
+            data = f.read()
+        from mc import fsparse
+        return data[:fsparse.committed_end(data)]
 
     def apply(self, op, spec=None):
         if self.dead:
